@@ -191,11 +191,11 @@ def gen_history(rng):
 
 def generate(ctx):
     maxL = ctx.n(40, 300)
-    for _ in range(ctx.n(150, 2000)):
+    for _ in range(ctx.n(150, 8000)):
         c = gen_history(ctx.rng)
         ctx.case('history', c, True, tags=['cls:' + c['cls'], 'hist:' + '+'.join(sorted(set(k for k, _ in c['steps'])))][:2])
         suite_history(ctx, c)
-    for _ in range(ctx.n(1200, 20000)):
+    for _ in range(ctx.n(1200, 60000)):
         c = gen_case(ctx.rng, maxL)
         inside = sum(1 for x in c['r'] if not x > c['sigma'])
         nontriv = (c['hc'] and 0 < inside < len(c['r'])) or max(abs(x) for x in c['gamma']) > 5
